@@ -46,9 +46,9 @@ pub fn prop() -> Prop {
 }
 
 fn describe(ctx: &Ctx) {
-    ctx.rule("workbooks with 1..300 distinct styles (quick <=48, thorough <=300) drawn from the full product font(name,size,bold,italic,underline kind,strike,colour argb/theme+tint/indexed) x fill(pattern,fg,bg) x 5 border edges(style,colour)+diagonal flags x alignment(h,v,wrap,rotation) x number format(built-in id / custom code incl. XML specials) x protection(locked,hidden), built as families: a base, its single-attribute neighbours and adversarial neighbours for concatenated keys (name-digits x size, size x family, indexed x theme, border style x colour, fg<->bg, flag shifts, tint precision); every style sits on at least one cell, further cells/rows(+height,hidden)/columns(+width,hidden,bestFit, runs of equal adjacent columns and a one-attribute neighbour column) on 1..2 sheets; standard and light writer; save, reload, save, reload, save. Non-trivial = the workbook holds >=2 styles whose effective projections differ in exactly one attribute; distinct by full case");
+    ctx.rule("workbooks with 1..300 distinct styles (quick <=48, thorough <=300) drawn from the full product font(name,size,bold,italic,underline kind,strike,colour argb/theme+tint/indexed) x fill(pattern,fg,bg | linear gradient: angle, stops) x 5 border edges(style,colour)+diagonal flags x alignment(h,v,wrap,rotation) x number format(built-in id / custom code incl. XML specials) x protection(locked,hidden), built as families: a base, its single-attribute neighbours and adversarial neighbours for concatenated keys (name-digits x size, size x family, indexed x theme, border style x colour, fg<->bg, flag shifts, tint precision); every style sits on at least one cell, further cells/rows(+height,hidden)/columns(+width,hidden,bestFit, runs of equal adjacent columns and a one-attribute neighbour column) on 1..2 sheets; standard and light writer; save, reload, save, reload, save. Non-trivial = the workbook holds >=2 styles whose effective projections differ in exactly one attribute; distinct by full case");
     ctx.assume("effective formatting = the 29 attributes the statement names, read through public getters; an absent component stands for the workbook default of that component (Style::get_default_value()), an absent attribute for its format default, palette-indexed colours for their ARGB, number formats are compared by code (normalisations N1-N5 in gen/style.rs)");
-    ctx.assume("not generated: gradient fills, the vertical/horizontal inside edges (differential formats only), protection with only one of locked/hidden set (the getter cannot tell absent from false), font names / format codes with control characters, column auto-width");
+    ctx.assume("not generated: path gradients (the API has no fields for them), the vertical/horizontal inside edges (differential formats only), protection with only one of locked/hidden set (the getter cannot tell absent from false), font names / format codes with control characters, column auto-width");
     ctx.assume("'does not grow' is asserted as: no table has more children in generation n+1 than in generation n (n=1,2); shrinking is allowed");
 }
 
@@ -576,6 +576,9 @@ fn check(case: &Case, obs: &mut Obs) -> Verdict {
     }
     if case.styles.iter().any(|s| s.fill.as_ref().map_or(false, |f| f.fg.is_some() && f.pattern.unwrap_or(0) == 0)) {
         obs.class("fill:none+fg");
+    }
+    if case.styles.iter().any(|s| s.fill.as_ref().map_or(false, |f| f.gradient.is_some())) {
+        obs.class("fill:gradient");
     }
     let near_pairs = (0..n).map(|i| ((i + 1)..n).filter(|&j| exp[i].distance(&exp[j]) == 1).count()).sum::<usize>();
     obs.class(format!("near-pairs:{}", match near_pairs { 0 => "0", 1..=9 => "1-9", 10..=99 => "10-99", _ => "100+" }));
